@@ -22,7 +22,7 @@ CHECKS = {
  "C05": ("6/C05", "symbolic per-regime layout derivation from MIR terms + format-template/idiom rules",
   "Static, partial. Decides for all inputs: hex writer is exactly LowerHex of the u64 argument with an empty default template; hex reader is u64::from_str_radix(arg,16) "
   "with the error propagated; the writer's and reader's symbolic bit layouts per resolution regime (code<<58, digits<<(60-2r), marker<<(59-2r), guard s<2^(2r-2), "
-  "58-bit mask, inverse rotation with the same face's first quintant); marker positions pairwise distinct. Does NOT decide the bijection as a theorem over all tuples "
+  "58-bit mask, inverse rotation with the same face's first quintant); marker positions pairwise distinct; shared from C14.C: every ID an API call returns (lookup, hierarchy, compact / uncompact vectors) is a serialize() output, the world cell or an element of a collection of such - the structural part of 'every returned ID is in canonical form'. Does NOT decide the bijection as a theorem over all tuples "
   "nor that get_resolution's marker scan inverts the writer (loop invariant)."),
  "C06": ("6/C06", "value pin of compiler-evaluated constant tables against the reference release",
   "Static, partial. Decides that the 41 ID-/place-determining named constants, the digit->flips table and the orientation flag sets are value-identical (floats within "
